@@ -4,7 +4,7 @@ import TTV.Spec.C04
 import TTV.Lemmas.LeafAct
 /-! # C04 — run verdict and stop control (work in progress) -/
 namespace TTV.Props.C04
-open TTV.Result TTV.ResC04 TTV.Spec.C04 TTV.Lemmas.LeafAct
+open TTV.Result TTV.ResC04 TTV.Spec.C04 TTV.Lemmas.LeafAct TTV.Lemmas.ResEmit
 set_option linter.unusedSimpArgs false
 
 /-! ## verdict -/
@@ -648,5 +648,176 @@ theorem C04_text_summary_partial (s : Shape) (ho : ownLeaves s = true) (hn : s.n
       rw [← hlo, ← hal.2.2]
       simp [textSpec]
   | _ => simp [LeafSt.textOut] at hlo
+
+/-! ## fail-fast -/
+/-- the calls an outcome can turn into on its way down: none of them assigns `failfast` -/
+def frameCall : Call → Bool
+  | .add .. | .stop | .time _ | .startTest _ | .stopTest _ | .tags _ _ => true
+  | _ => false
+
+theorem frame_main (caps : Caps) (c : Call) (hc : frameCall c = true) : ∀ x ∈ etodMain caps c, frameCall x = true := by
+  cases c <;> simp [frameCall] at hc <;> simp [etodMain, Spec.C08.degradeCall, frameCall] <;> (try split) <;> simp [frameCall]
+
+mutual
+theorem ff_frame : ∀ (s : Shape), s.noStream = true → ∀ (cs : List Call), (∀ x ∈ cs, frameCall x = true) →
+    ∀ (st : St s), failfastOf s (cs.foldl (step s) st) = failfastOf s st
+  | _, _, [], _, _ => rfl
+  | .sink f, hn, c :: cs, hc, st => by
+      rw [List.foldl_cons, ff_frame (.sink f) hn cs (fun x hx => hc x (List.mem_cons_of_mem _ hx))]
+      have := hc c List.mem_cons_self
+      cases c <;> simp [frameCall] at this <;> simp [failfastOf, step, sinkStep, Call.logged] <;> (repeat' split) <;> rfl
+  | .tt ff, hn, c :: cs, hc, st => by
+      rw [List.foldl_cons, ff_frame (.tt ff) hn cs (fun x hx => hc x (List.mem_cons_of_mem _ hx))]
+      have := hc c List.mem_cons_self
+      cases c with
+      | add k t a => cases k <;> simp [failfastOf, step, ttStep, Call.logged]
+      | _ => simp [frameCall] at this <;> simp [failfastOf, step, ttStep, Call.logged]
+  | .text ff, hn, c :: cs, hc, st => by
+      rw [List.foldl_cons, ff_frame (.text ff) hn cs (fun x hx => hc x (List.mem_cons_of_mem _ hx))]
+      have := hc c List.mem_cons_self
+      cases c with
+      | add k t a => cases k <;> simp [failfastOf, step, textStep, ttStep, Call.logged]
+      | _ => simp [frameCall] at this <;> simp [failfastOf, step, textStep, ttStep, Call.logged]
+  | .tbt, hn, c :: cs, hc, st => by
+      rw [List.foldl_cons, ff_frame .tbt hn cs (fun x hx => hc x (List.mem_cons_of_mem _ hx))]
+      have := hc c List.mem_cons_self
+      cases c with
+      | add k t a => cases k <;> simp [failfastOf, step, tbtStep, ttStep, Call.logged]
+      | _ => simp [frameCall] at this <;> simp [failfastOf, step, tbtStep, ttStep, Call.logged]
+  | .etod ch, hn, c :: cs, hc, (own, inner) => by
+      rw [List.foldl_cons, ff_frame (.etod ch) hn cs (fun x hx => hc x (List.mem_cons_of_mem _ hx))]
+      have hcf := hc c List.mem_cons_self
+      obtain ⟨k, hk⟩ := etodStep_emits ⟨caps ch, step ch, failfastOf ch⟩ own inner c
+      have h2 : (step (.etod ch) (own, inner) c).2
+          = (etodMain (caps ch) c ++ List.replicate k Call.stop).foldl (step ch) inner := hk
+      have h1 : (step (.etod ch) (own, inner) c).1.failfast = own.failfast := by
+        show (etodStep ⟨caps ch, step ch, failfastOf ch⟩ own inner c).1.failfast = own.failfast
+        cases c with
+        | add kk t a =>
+          cases kk <;> simp only [etodStep] <;> (repeat' split) <;>
+            simp [etodFinally, etodStop] <;> (repeat' split) <;> rfl
+        | stop => simp only [etodStep, etodStop]; split <;> rfl
+        | tags n g => simp only [etodStep]; split <;> rfl
+        | time d => rfl
+        | startTest t => rfl
+        | stopTest t => rfl
+        | _ => simp [frameCall] at hcf
+      simp only [failfastOf]
+      rw [h1, h2, ff_frame ch (by simpa [Shape.noStream] using hn) _ (by
+        intro x hx
+        rcases List.mem_append.mp hx with hx | hx
+        · exact frame_main _ c hcf x hx
+        · rw [List.eq_of_mem_replicate hx]; rfl)]
+  | .deco ch, hn, c :: cs, hc, st => by
+      rw [List.foldl_cons, ff_frame (.deco ch) hn cs (fun x hx => hc x (List.mem_cons_of_mem _ hx))]
+      rfl
+  | .tagger n g ch, hn, c :: cs, hc, st => by
+      rw [List.foldl_cons, ff_frame (.tagger n g ch) hn cs (fun x hx => hc x (List.mem_cons_of_mem _ hx))]
+      rfl
+  | .tfr ch, hn, c :: cs, hc, (own, inner) => by
+      rw [List.foldl_cons, ff_frame (.tfr ch) hn cs (fun x hx => hc x (List.mem_cons_of_mem _ hx))]
+      have hcf := hc c List.mem_cons_self
+      simp only [failfastOf]
+      cases c with
+      | add k t a => rfl
+      | tags n g => simp only [step, tfrStep]; split <;> simp [ttStep, Call.logged]
+      | time d => simp [step, tfrStep, ttStep, Call.logged]
+      | startTest t => simp [step, tfrStep, ttStep, Call.logged]
+      | stopTest t => simp [step, tfrStep, ttStep, Call.logged]
+      | stop => rfl
+      | _ => simp [frameCall] at hcf
+  | .multi ss, hn, c :: cs, hc, (own, inner) => by
+      rw [List.foldl_cons, ff_frame (.multi ss) hn cs (fun x hx => hc x (List.mem_cons_of_mem _ hx))]
+      have hcf := hc c List.mem_cons_self
+      have hn' : Shape.noStreamL ss = true := by simpa [Shape.noStream] using hn
+      have : (step (.multi ss) (own, inner) c).2 = stepL ss inner c := by
+        cases c <;> first | rfl | simp [frameCall] at hcf
+      simp only [failfastOf, this, ffL_frame ss hn' c hcf inner]
+  | .e2s _, hn, _ :: _, _, _ => by simp [Shape.noStream] at hn
+theorem ffL_frame : ∀ (ss : List Shape), Shape.noStreamL ss = true → ∀ (c : Call), frameCall c = true →
+    ∀ (st : StL ss), failfastL ss (stepL ss st c) = failfastL ss st
+  | [], _, _, _, _ => rfl
+  | s :: ss, hn, c, hc, (x, xs) => by
+      simp only [Shape.noStreamL, Bool.and_eq_true] at hn
+      have := ff_frame s hn.1 [c] (by simpa using hc) x
+      simp only [List.foldl_cons, List.foldl_nil] at this
+      simp only [failfastL, stepL, this, ffL_frame ss hn.2 c hc xs]
+end
+
+theorem ss_stop (s : Shape) (hw : s.wf = true) (ho : ownLeaves s = true) (hn : s.noStream = true) (st : St s) :
+    shouldStopOf s (step s st .stop) = true := (C04_stop_reaches s hw ho hn st).2
+
+/-- a failing outcome through an `ExtendedToOriginalDecorator` whose `failfast` reads true stops the run -/
+theorem etod_stops (ch : Shape) (hw : (Shape.etod ch).wf = true) (ho : ownLeaves ch = true)
+    (hn : ch.noStream = true) (own : EtodOwn) (inner : St ch) (k : Kind) (t : Nat) (a : Arg) (hk : Kind.bad k = true)
+    (hff : failfastOf (.etod ch) (own, inner) = true) :
+    shouldStopOf (.etod ch) (step (.etod ch) (own, inner) (.add k t a)) = true := by
+  have hwc : ch.wf = true := by
+    cases ch <;> simp_all [Shape.wf, ownLeaves]
+  obtain ⟨hstop, hss⟩ := caps_own ch ho
+  have huxs : (caps ch).uxs = true := by cases ch <;> simp_all [ownLeaves, caps]
+  -- the state after the outcome reached the target
+  have key : ∀ (a' : Arg) (k' : Kind),
+      shouldStopOf (.etod ch) (etodFinally ⟨caps ch, step ch, failfastOf ch⟩ (own, step ch inner (.add k' t a'))) = true := by
+    intro a' k'
+    have hfr := ff_frame ch hn [.add k' t a'] (by simp [frameCall]) inner
+    simp only [List.foldl_cons, List.foldl_nil] at hfr
+    have hf : etodFailfast ⟨caps ch, step ch, failfastOf ch⟩ own (step ch inner (.add k' t a')) = true := by
+      simp only [etodFailfast, failfastOf] at hff ⊢
+      rw [hfr]; exact hff
+    simp only [etodFinally, hf, ite_true, etodStop, hstop, shouldStopOf, hss]
+    exact ss_stop ch hwc ho hn _
+  cases k <;> simp [Kind.bad] at hk <;> simp only [step, etodStep, huxs, Bool.not_true, Bool.false_eq_true, ite_false]
+  · exact key _ _
+  · exact key _ _
+  · exact key _ _
+
+/-- **C04 (fail-fast stops).**  On a `TestResult` / `TextTestResult`, an `ExtendedToOriginalDecorator` or a
+`MultiTestResult` (over any graph of own results) whose `failfast` reads true, an error, a failure or an unexpected
+success makes `shouldStop` true.  (Not so for a `ThreadsafeForwardingResult` reported to directly: finding
+`tfrOwnFailfastDirect`; `TestResultDecorator` / `Tagger` have no `failfast`.) -/
+theorem C04_failfast_stops_partial (s : Shape) (hw : s.wf = true) (ho : ownLeaves s = true) (hn : s.noStream = true)
+    (hroot : ∀ c, s ≠ .tfr c) (st : St s) (k : Kind) (t : Nat) (a : Arg) (hk : Kind.bad k = true)
+    (hff : readFF s st = some true) : shouldStopOf s (step s st (.add k t a)) = true := by
+  cases s with
+  | sink f => simp [ownLeaves] at ho
+  | tbt => simp [ownLeaves] at ho
+  | tt ff =>
+    simp only [readFF, caps, failfastOf, ite_true, Option.some.injEq] at hff
+    cases k <;> simp [Kind.bad] at hk <;> simp [shouldStopOf, step, ttStep, hff, Call.logged]
+  | text ff =>
+    simp only [readFF, caps, failfastOf, ite_true, Option.some.injEq] at hff
+    cases k <;> simp [Kind.bad] at hk <;> simp [shouldStopOf, step, textStep, ttStep, hff, Call.logged]
+  | etod ch =>
+    obtain ⟨own, inner⟩ := st
+    simp only [readFF, caps, ite_true, Option.some.injEq] at hff
+    exact etod_stops ch hw (by simpa [ownLeaves] using ho) (by simpa [Shape.noStream] using hn) own inner k t a hk hff
+  | deco ch => simp [readFF, caps] at hff
+  | tagger n g ch => simp [readFF, caps] at hff
+  | tfr ch => exact absurd rfl (hroot ch)
+  | e2s ch => simp [Shape.noStream] at hn
+  | multi ss =>
+    obtain ⟨own, inner⟩ := st
+    cases ss with
+    | nil => simp [Shape.wf] at hw
+    | cons d ds =>
+      obtain ⟨x, xs⟩ := inner
+      cases d with
+      | etod e =>
+        simp only [readFF, caps, ite_true, failfastOf, failfastL, List.headD_cons, Option.some.injEq] at hff
+        have hwd : (Shape.etod e).wf = true := by
+          simp only [Shape.wf, Shape.wfL, Bool.and_eq_true] at hw; exact hw.1
+        have hod : ownLeaves e = true := by
+          simp only [ownLeaves, ownLeavesL, Bool.and_eq_true] at ho; exact ho.1
+        have hnd : e.noStream = true := by
+          simp only [Shape.noStream, Shape.noStreamL, Bool.and_eq_true] at hn; exact hn.1
+        obtain ⟨own', inner'⟩ := x
+        have := etod_stops e hwd hod hnd own' inner' k t a hk hff
+        have hstep : step (.multi (.etod e :: ds)) (own, ((own', inner'), xs)) (.add k t a)
+            = (multiOwn own (.add k t a), (step (.etod e) (own', inner') (.add k t a), stepL ds xs (.add k t a))) := rfl
+        rw [hstep]
+        show (shouldStopOf (.etod e) (step (.etod e) (own', inner') (.add k t a)) :: shouldStopL ds _).any id = true
+        simp [this]
+      | _ => simp [Shape.wf, Shape.wfL] at hw
 
 end TTV.Props.C04
